@@ -47,7 +47,7 @@ NEAR_BAND = {"kind": "near_band", "vertices": [[0.0, 0.0, 1.1e-8], [1.0, 0.0, 0.
 
 
 def gen_cases(rng, n, tier):
-    cases = pattern_cases(rng) + [dict(NEAR_BAND)]  # the known finding's example, always exercised
+    cases = pattern_cases(rng) + [dict(NEAR_BAND)]  # the near-band example (fixed by fixes/C01-snap-on-plane-distances.diff), always exercised
     while len(cases) < n:
         c = S.gen_mesh_case(rng, tier, "geom")
         if not c["vertices"]:
@@ -87,6 +87,4 @@ def oracle(c, o):
 
 
 def classify(c, o, failure, disagrees):
-    if c.get("kind") == "unique_bincount":
-        return None
-    return S.near_band_class(c, failure)
+    return None
